@@ -37,6 +37,7 @@ SIG_REORDER = "batteries.ReplLockManager:stamp-reorder-mutex"
 SIG_MUTEX = "batteries.ReplLockManager:mutex-broken"
 SIG_MUTEX_STALE = "batteries.ReplLockManager:stale-stamp-mutex"
 SIG_MUTEX_SNAPSHOT = "batteries.ReplLockManager:mutex-broken-after-snapshot"
+SIG_FAILED_KEPT = "batteries.ReplLockManager.tryAcquire:failed-acquire-kept"
 NAMES = ["a", "b", "c"]
 
 
@@ -77,6 +78,7 @@ class Cluster(object):
         self.applied = dict((n, []) for n in NAMES)      # (abstract cmd, return value) in apply order
         self.answers = []
         self.rel_submitted = {}
+        self.first_applied = {}              # command -> lock-clock value when the first node applied it
         self._bases = {}
         self.viols = []
         self.cov = {}
@@ -201,6 +203,7 @@ class Cluster(object):
             def rec(*args, _m=meth, _b=base, **kw):
                 r = _m(*args, **kw)
                 cluster.applied[n].append((cluster._abstract(_b, args), r))
+                cluster.first_applied.setdefault(cluster._abstract(_b, args), cluster.clock.now)
                 return r
             table[fid] = rec
 
@@ -305,6 +308,25 @@ class Cluster(object):
                 own_applied = sum(1 for (c, _) in self.applied[n] if c == ("rel", l, i + 1))
                 if own_applied >= self.rel_submitted.get((n, l), 0):
                     hs.append(n)
+            for n in hs:
+                # told failed => not kept (D73): every tryAcquire of this client for l was answered with a failure,
+                # one of the acquires was committed more than U/2 after its attempt, and the client holds
+                i = NAMES.index(n) + 1
+                att = [a for a in self.answers if a["client"] == n and a["l"] == l]
+                if att and all("ans" in a and a["ans"] is not True for a in att) and \
+                        any(a["ans"] is None and 2 * (self.first_applied.get(("acq", l, i, a["att"]), a["att"]) - a["att"]) > self.U
+                            for a in att):
+                    self.hit("held.by-client-told-failed")
+                    cmds = [c for c, _ in common_sequence(self)]
+                    overtaken = any(("rel", l, i) in cmds[:cmds.index(("acq", l, i, a["att"]))] for a in att
+                                    if a["ans"] is None and ("acq", l, i, a["att"]) in cmds)
+                    self.viols.append({"signature": SIG_FAILED_KEPT + (":compensating-release-overtaken" if overtaken else ""),
+                                       "what": "cluster: at lock-clock %d client %s considers L%d held (no release of its own outstanding) "
+                                               "although every one of its tryAcquire calls was answered with a failure %s and the acquire "
+                                               "of one reported as failed with an open outcome was committed more than U/2 after its attempt; table %s"
+                                               % (self.clock.now, n, l, [(a["att"], a.get("ans"), a.get("err"), a.get("at")) for a in att],
+                                                  lc.table_of(self.mgrs[n]._consumer()))})
+                    return
             if hs:
                 self.hit("held.%d" % min(2, len(hs)))
             if len(hs) > 1:
